@@ -14,6 +14,7 @@ func init() { register("C19", "exploration", runC19) }
 
 func runC19(r *engine.Run) {
 	r.Rule = "E1. (a) fragment count M = 1..300 (all) x redundancy 100 with an identity-matrix data block (fragment i carries only bit i), so one Encode reveals all 100 parity-matrix lines, compared with the TS004 matrix_line transcribed independently (mc/spec/frag.go); (b) fragment size 1..64 x M in {1,2,3,7,8,9,31,32,33} x redundancy {0,1,5}: systematic part unchanged and in order, parity = XOR of the selected rows, linearity Encode(a^b) = Encode(a)^Encode(b); (c) for M <= 64 and every erasure pattern of <= 2 lost data fragments (all C(M,1)+C(M,2)) a GF(2) elimination decoder fed with the encoder's fragments recovers the block iff the specification's selection vectors have full rank; (d) invalid arguments (size 0, negative, non-dividing; redundancy -1, 0; empty data) give errors or empty parity, never a panic. Non-trivial: an Encode call whose output was compared with the specification's parity lines."
+	c19History(r)
 	r.Assume("data contents are identity / counting / patterned blocks: the encoder is linear over XOR (checked), so basis vectors determine it")
 
 	r.PartDims("matrix-lines", []string{"fragment count M:1..300", "parity index:1..100 (one Encode)"}, 300, func(c *engine.Case) {
@@ -215,4 +216,76 @@ func runC19(r *engine.Run) {
 
 	r.Guard(r.OutcomeCount("M/power-of-two") == 9 && r.OutcomeCount("M/non-power-of-two") == 291, "all 9 power-of-two and 291 other fragment counts compared")
 	r.Guard(r.OutcomeCount("erasure/recovered") > 0 && r.OutcomeCount("erasure/rank-deficient(nothing to recover)") > 0, "erasure patterns with and without full rank observed")
+}
+
+// c19History: Encode on buffers a session reuses. The data slice is a prefix of
+// a larger buffer (spare capacity, stale bytes behind it); the same buffer is
+// encoded repeatedly; nothing outside data[:len] may be written and the
+// fragments are those of an independent encoding of the same bytes.
+func c19History(r *engine.Run) {
+	type shape struct{ size, frag, red int }
+	shapes := []shape{{40, 10, 4}, {40, 10, 10}, {64, 16, 3}, {30, 5, 8}, {9, 3, 2}}
+	var ops []HOp
+	for _, sh := range shapes {
+		for _, reuse := range []bool{false, true} {
+			for _, fill := range []byte{0x00, 0xC3} {
+				sh, reuse, fill := sh, reuse, fill
+				ops = append(ops, HOp{fmt.Sprintf("Encode(size=%d,frag=%d,red=%d,session-buffer=%v,fill=%02x)", sh.size, sh.frag, sh.red, reuse, fill), func(ctx HCtx) interface{} {
+					var arena []byte
+					if reuse {
+						arena, _ = ctx["arena"].([]byte)
+					}
+					if arena == nil {
+						arena = make([]byte, 1024)
+						for i := range arena {
+							arena[i] = 0xEE
+						}
+						if reuse {
+							ctx["arena"] = arena
+						}
+					}
+					data := arena[:sh.size]
+					for i := range data {
+						data[i] = fill + byte(i*3)
+					}
+					before := append([]byte(nil), arena...)
+					frags, err := fragmentation.Encode(data, sh.frag, sh.red)
+					problem := ""
+					if !bytes.Equal(arena, before) {
+						problem = "Encode wrote to its argument or behind its end (spare capacity of the caller's buffer)"
+					}
+					// independent encoding: data rows, then parity rows as XOR of the rows matrix_line selects
+					m := sh.size / sh.frag
+					if err == nil && problem == "" {
+						if len(frags) != m+sh.red {
+							problem = fmt.Sprintf("%d fragments, expected %d", len(frags), m+sh.red)
+						}
+						for y := 1; y <= sh.red && problem == ""; y++ {
+							want := make([]byte, sh.frag)
+							for i, bit := range spec.MatrixLine(y, m) {
+								if bit {
+									for k := 0; k < sh.frag; k++ {
+										want[k] ^= before[i*sh.frag+k]
+									}
+								}
+							}
+							if !bytes.Equal(frags[m+y-1], want) {
+								problem = fmt.Sprintf("parity fragment %d is %x, expected %x", y, frags[m+y-1], want)
+							}
+						}
+					}
+					// the data fragments are sub-slices of the caller's buffer (no copy is
+					// promised): the caller transmits them before it reuses the buffer, so
+					// what is kept here is their content at return time
+					sent := make([][]byte, len(frags))
+					for i := range frags {
+						sent[i] = append([]byte(nil), frags[i]...)
+					}
+					return &hChecked{[]interface{}{sent, errS(err)}, problem}
+				}})
+			}
+		}
+	}
+	r.Rule += historyRule + " Fragmentation alphabet: Encode of 5 (size, fragment size, redundancy) shapes x 2 contents, on a fresh 1 KiB buffer or on the sequence's session buffer (data is a prefix with spare capacity and stale bytes behind it), each compared with an independent encoding and with the buffer before the call; all sequences of <= 3 calls."
+	historyPart(r, "history/encode", ops, 3)
 }
